@@ -20,6 +20,7 @@ Definition pev_eqb (a b : pev) : bool :=
   match a, b with
   | EvStart x, EvStart y | EvEnd x, EvEnd y | EvWaitReturn x, EvWaitReturn y => Nat.eqb x y
   | EvPark l, EvPark l' => nats_eqb l l'
+  | EvSubmitted x, EvSubmitted y => Nat.eqb x y
   | _, _ => false
   end.
 Fixpoint pevs_eqb (a b : list pev) : bool :=
@@ -57,6 +58,15 @@ Fixpoint waits_ok (ops : list pop) (l : list pev) (ended : list taskid) (k : nat
       forallb (fun t => existsb (Nat.eqb t) ended) (before_wait ops k []) && waits_ok ops r ended (S k)
   | _ :: r => waits_ok ops r ended k
   end.
+(* submission blocks when the queue is full: at every quiescent point the tasks whose Submit has
+   returned and that have not ended fit into the workers and the queue (2 * workers) *)
+Fixpoint blocks_ok (w : nat) (l : list pev) (ended : nat) : bool :=
+  match l with
+  | [] => true
+  | EvEnd _ :: r => blocks_ok w r (S ended)
+  | EvSubmitted k :: r => Nat.leb (k - ended) (w + 2 * w) && blocks_ok w r ended
+  | _ :: r => blocks_ok w r ended
+  end.
 Definition spec_C12 (sc : pscen) (ob : pobs) : bool :=
   let w := pool_workers (ps_workers sc) in
   nodupb (ends ob)                                                  (* no task runs twice *)
@@ -64,6 +74,7 @@ Definition spec_C12 (sc : pscen) (ob : pobs) : bool :=
   && forallb (fun t => existsb (Nat.eqb t) (submitted (ps_ops sc))) (ends ob)
   && waits_ok (ps_ops sc) ob [] 0                                   (* Wait is a barrier *)
   && forallb (fun e => match e with EvPark l => Nat.leb (length l) w | _ => true end) ob
+  && blocks_ok w ob 0
   && Nat.eqb (length (filter (fun e => match e with EvWaitReturn _ => true | _ => false end) ob))
              (length (filter (fun o => match o with PWait => true | _ => false end) (ps_ops sc))).
 
